@@ -13,11 +13,12 @@ CONSTANTS NS = 1
   IdleTO = 10
   HardTO = 30
   DropTO = 10
-  D = 0
+  D = 4
 INIT Init
 NEXT Next
 CHECK_DEADLOCK FALSE
-VIEW viewE
+VIEW viewN
+CONSTRAINT Bound
 INVARIANT TypeOK
 INVARIANT NoLeak
 INVARIANT UniqueHit
